@@ -227,6 +227,8 @@ EXC_PARENTS = {
 
 
 def exc_matches(kind, handler_names):
+    if kind == "<abort>":
+        return False  # not an exception of the program: the marker of a branch that left the verified subset
     if kind in handler_names:
         return True
     if kind == "IOError" and "OSError" in handler_names:
